@@ -23,7 +23,8 @@ from fsim.worlds import ekf as ekfw
 
 TOL = 1e-9
 MAXDT_MENU = [0.1, 0.05, 0.25, 0.07, 1.0, 1.0 / 60.0, 1.0 / 30.0, 0.123456789, 0.30000000000000004]  # incl. values with > 6 significant digits
-K_MENU = [None, 1.0, 5.0, 3.0, 4, 7.0 / 3.0, 1]  # incl. ints and a long mantissa
+K_MENU = [None, 1.0, 5.0, 3.0, 4, 7.0 / 3.0, 1, 2.3456789, 0.123456789]  # incl. ints and long mantissas (a generator that prints
+# the constant with 6 significant digits moves the threshold by ~1e-6: boundary readings at 4e-9..1e-7 from it decide differently)
 CPP_UNSAFE_MODELS = {"managed"}  # its symbol names collide with parameter names the generator emits ('state')
 
 
